@@ -38,6 +38,12 @@ class N(AbstractJob):
     def __repr__(self):
         return self.name
 
+    async def co_run(self):
+        return self.name
+
+    async def co_shutdown(self):
+        return None
+
 
 class S(Scheduler):
     def __init__(self, name, h, *a, **kw):
@@ -116,11 +122,19 @@ def build_flat(req, cls, hashes, forever=(), nested=None):
         if i in nested:
             inner = [] if nested[i] == 'empty' else [N("inner%d" % i, 50 + i)]
             jobs[i] = S("n%d" % i, hashes[i], *inner, forever=(i in forever))
+            jobs[i]._inner = inner
         else:
             jobs[i] = N("n%d" % i, hashes[i], forever=(i in forever))
     for a, bs in req.items():
         for b in bs:
             jobs[a].required.add(jobs[b])      # raw edge: self-loops allowed here on purpose
+    for i in nested:
+        # a job inside a nested member requiring a member of the enclosing
+        # scheduler: not a requirement *between members*, queries must ignore it
+        for inner_job in jobs[i]._inner:
+            others = [k for k in req if k != i]
+            if others:
+                inner_job.required.add(jobs[others[(i * 7) % len(others)]])
     order = sorted(jobs, key=lambda i: hashes[i])
     if cls is P:
         sched = P(*[jobs[i] for i in order])
@@ -236,8 +250,14 @@ def c15_exhaustive(prop, key, index, tier):
     for cls in (P, S):
         hashes = list(range(n))
         rng.shuffle(hashes)
-        sched, jobs = build_flat(req, cls, hashes)
-        where = "%s%s hashes=%s" % (cls.__name__, {k: sorted(v) for k, v in req_names.items()}, hashes)
+        forever = {i for i in range(n) if rng.random() < 0.3}
+        if forever:
+            out.count('graphs with forever jobs')
+        sched, jobs = build_flat(req, cls, hashes, forever=forever)
+        if rng.random() < 0.15:
+            sched.verbose = True
+        where = "%s%s hashes=%s forever=%s" % (cls.__name__, {k: sorted(v) for k, v in req_names.items()}, hashes,
+                                               sorted(forever))
         got = _topo_checks(out, sched, req_names, member_names, acyclic, where)
         if got is not None and got is not acyclic:
             out.violation('check_cycles-wrong', "%s: check_cycles() returned %r, the graph is %s"
@@ -292,18 +312,17 @@ def c15_tree(prop, key, index, tier):
     counter = itertools.count()
     levels = []
 
-    def mk(level):
+    def mk(level, cyclic):
         n = rng.randint(1, 12 if level == 0 else 6)
-        req = random_digraph(rng, n, cyc_level == level)
+        req = random_digraph(rng, n, cyclic)
         jobs = {}
-        nested_slot = rng.randrange(n) if level + 1 < depth else None
-        child = None
+        # one or two nested schedulers per level: the planted cycle goes down one branch only
+        slots = rng.sample(range(n), min(n, rng.choice([1, 1, 2]))) if level + 1 < depth else []
+        for k, i in enumerate(slots):
+            jobs[i] = mk(level + 1, cyc_level == level + 1 and k == 0)
         for i in range(n):
-            if i == nested_slot:
-                child = mk(level + 1)
-                jobs[i] = child
-            else:
-                jobs[i] = N("n%d" % next(counter), rng.randrange(64))
+            if i not in jobs:
+                jobs[i] = N("n%d" % next(counter), rng.randrange(64), forever=rng.random() < 0.2)
         for a, bs in req.items():
             for b in bs:
                 jobs[a].required.add(jobs[b])
@@ -312,28 +331,36 @@ def c15_tree(prop, key, index, tier):
         if level == 0:
             s = P(*members) if rng.random() < 0.5 else S("TOP", 0, *members)
         else:
-            s = S("S%d" % next(counter), rng.randrange(64), *members)
+            s = S("S%d" % next(counter), rng.randrange(64), *members, forever=rng.random() < 0.2)
+        if rng.random() < 0.25:
+            s.verbose = True
         req_names = {jobs[a].name: {jobs[b].name for b in bs} for a, bs in req.items()}
         levels.append((level, s, req_names))
         return s
-    top = mk(0)
-    acyc = {lvl: R.is_acyclic(rq) for lvl, s, rq in levels}
+    top = mk(0, cyc_level == 0)
+    acyc = {id(s_): R.is_acyclic(rq) for lvl, s_, rq in levels}
     if isinstance(top, S):
         expected = all(acyc.values())
         out.count('nestable Scheduler trees')
     else:
-        expected = acyc[0]
+        expected = acyc[id(top)]
         out.count('PureScheduler trees (own level only)')
     if cyc_level is not None and cyc_level > 0:
         out.count('cycle planted at depth %d' % cyc_level)
         out.nontrivial = True
     where = "tree depth %d, cyclic level %s, top %s" % (depth, cyc_level, type(top).__name__)
-    got = _topo_checks(out, top, None, None, None, where)
+    buf0 = io.StringIO()
+    with contextlib.redirect_stdout(buf0):
+        got = _topo_checks(out, top, None, None, None, where)
     if got is not None and got is not expected:
         out.violation('check_cycles-wrong-tree', "%s: check_cycles() returned %r, expected %r (per-level acyclic: %s)"
                       % (where, got, expected, acyc))
-    for lvl, s, rq in levels:
-        _own_level_order(out, s, rq, sorted(rq), acyc[lvl], "%s level %d" % (where, lvl))
+    buf = io.StringIO()
+    with contextlib.redirect_stdout(buf):       # some schedulers are verbose
+        for lvl, s_, rq in levels:
+            _own_level_order(out, s_, rq, sorted(rq), acyc[id(s_)], "%s level %d" % (where, lvl))
+    if sum(1 for lvl, s_, rq in levels if lvl == 1) >= 2:
+        out.count('trees with two nested schedulers side by side')
     if all(acyc.values()):
         _list_ids(out, top, where)
         out.nontrivial = True
@@ -463,6 +490,29 @@ def c16_tree(prop, key, index, tier):
                 kinds.add('across schedulers')
     for k in kinds:
         out.count('trees with edges %s' % k)
+    ran = False
+    if rng.random() < 0.3:
+        # history: a *closed* version of the tree is run first (the dangling
+        # edges are put aside and restored afterwards)
+        aside = {j: set(j.required) - set(member_of[j].jobs) for j in jobs}
+        for j in jobs:
+            j.required -= aside[j]
+        closed_acyclic = all(R.is_acyclic({x.name: {r.name for r in x.required} for x in s_.jobs},
+                                          {x.name for x in s_.jobs}) for s_ in scheds)
+        if closed_acyclic:
+            import asyncio
+            loop = asyncio.new_event_loop()
+            try:
+                with contextlib.redirect_stdout(io.StringIO()):
+                    loop.run_until_complete(asyncio.wait_for(top.co_run(), 60))
+                ran = True
+                out.count('trees that were run before the dangling edges appeared')
+            except BaseException as exc:                # noqa
+                out.count('harness: pre-run failed: %s' % type(exc).__name__)
+            finally:
+                loop.close()
+        for j in jobs:
+            j.required |= aside[j]
     if rng.random() < 0.5:
         # state left behind by earlier queries: reverse links computed while the
         # dangling requirements are still there
@@ -584,8 +634,26 @@ def _check_entry_exit(out, sched, req, members, forever, succ, where):
 
 def _apply_edit(rng, sched, jobs, req, members, spare, out):
     """one random edit applied to the live scheduler and to the name-level truth"""
-    op = rng.choice(['add_edge', 'add_edge', 'remove_edge', 'add_job', 'remove_job', 'bypass', 'keep_only'])
+    op = rng.choice(['add_edge', 'add_edge', 'remove_edge', 'swap_edge', 'swap_edge', 'add_job', 'remove_job',
+                     'bypass', 'keep_only'])
     mem = sorted(members)
+    if op == 'swap_edge':
+        # one requirement replaced by another: every job keeps its number of requirements
+        cands = [(a, b) for a in mem for b in req[a] if b in members]
+        if cands and len(mem) >= 3:
+            a, b = rng.choice(cands)
+            for c in rng.sample(mem, len(mem)):
+                if c not in (a, b) and c not in req[a]:
+                    trial = {k: set(v) for k, v in req.items()}
+                    trial[a].discard(b)
+                    trial[a].add(c)
+                    if R.is_acyclic(trial, members):
+                        req[a].discard(b)
+                        req[a].add(c)
+                        jobs[a].requires(jobs[b], remove=True)
+                        jobs[a].requires(jobs[c])
+                        return "%s: requirement %s replaced by %s" % (a, b, c)
+        return None
     if op == 'add_edge' and len(mem) >= 2:
         a, b = rng.sample(mem, 2)
         trial = {k: set(v) for k, v in req.items()}
@@ -702,6 +770,12 @@ def c17_exhaustive(prop, key, index, tier):
         for _ in range(rng.randint(2, 6)):
             try:
                 done = _apply_edit(rng, sched, jobs, req2, mem2, spare, out)
+                if done and rng.random() < 0.4:
+                    # several edits in a row, no query in between
+                    more = _apply_edit(rng, sched, jobs, req2, mem2, spare, out)
+                    if more:
+                        done = done + "; " + more
+                        out.count('several edits in a row before re-asking')
             except BaseException as exc:                # noqa
                 out.violation('edit-raised', "%s after %s: edit raised %r" % (where, log, exc))
                 break
@@ -743,6 +817,11 @@ def c17_random(prop, key, index, tier):
     log = []
     for _ in range(rng.randint(3, 10)):
         done = _apply_edit(rng, sched, jobs, req, members, spare, out)
+        if done and rng.random() < 0.4:
+            more = _apply_edit(rng, sched, jobs, req, members, spare, out)
+            if more:
+                done = done + "; " + more
+                out.count('several edits in a row before re-asking')
         if done:
             log.append(done)
             out.count('edits applied before re-asking')
@@ -815,9 +894,19 @@ def _closed_acyclic(out, sched, where):
         out.violation('cyclic-after', "%s: the scheduler became cyclic: %s" % (where, {k: sorted(v) for k, v in req.items()}))
 
 
+# which members of the C18 graphs are nestable schedulers ('empty' ones are
+# falsy: len() == 0), and whether the scheduler is verbose: set per case
+_C18 = dict(nested={}, verbose=False)
+
+
 def _fresh(req, cls, hashes):
     base = {int(a[1:]): {int(b[1:]) for b in bs} for a, bs in req.items()}
-    sched, jobs = build_flat(base, cls, {int(a[1:]): hashes[a] for a in req})
+    nested = {int(a[1:]): kind for a, kind in _C18['nested'].items() if a in req}
+    sched, jobs = build_flat(base, cls, {int(a[1:]): hashes[a] for a in req}, nested=nested)
+    for i in nested:
+        for inner_job in jobs[i]._inner:
+            inner_job.required.clear()          # surgery is judged on closed schedulers
+    sched.verbose = _C18['verbose']
     return sched, {"n%d" % k: v for k, v in jobs.items()}
 
 
@@ -850,6 +939,11 @@ def _check_keep_only(out, req, cls, hashes, keep, extra, where):
     sched, jobs = _fresh(req, cls, hashes)
     outsiders = [N("o%d" % k) for k in range(extra)]
     arg = [jobs[k] for k in sorted(keep)] + outsiders
+    kind = (len(keep) + extra) % 3
+    if kind == 1:
+        arg = iter(arg)                         # a one-shot iterator is a legal collection here
+    elif kind == 2:
+        arg = set(arg)
     out.count('keep_only() calls compared')
     buf = io.StringIO()
     try:
@@ -960,7 +1054,14 @@ def c18_exhaustive(prop, key, index, tier):
     rng.shuffle(hs)
     hashes = dict(zip(members, hs))
     cls = P if index % 2 else S
-    where = "%s %s" % (cls.__name__, {k: sorted(v) for k, v in req.items()})
+    _C18['nested'] = {a: rng.choice(['empty', 'full']) for a in members if rng.random() < 0.2}
+    _C18['verbose'] = rng.random() < 0.25
+    if 'empty' in _C18['nested'].values():
+        out.count('graphs with an empty nested scheduler as a member')
+    if _C18['verbose']:
+        out.count('verbose schedulers under surgery')
+    where = "%s %s nested=%s verbose=%s" % (cls.__name__, {k: sorted(v) for k, v in req.items()},
+                                          _C18['nested'], _C18['verbose'])
     out.count('DAGs with %d nodes' % n)
     for target in members:
         _check_bypass(out, req, cls, hashes, target, where)
@@ -993,6 +1094,8 @@ def c18_history(prop, key, index, tier):
     req = {"n%d" % a: {"n%d" % b for b in bs} for a, bs in base.items()}
     hashes = {a: rng.randrange(32) for a in req}
     cls = rng.choice([P, S])
+    _C18['nested'] = {a: rng.choice(['empty', 'full']) for a in req if rng.random() < 0.15}
+    _C18['verbose'] = rng.random() < 0.25
     sched, jobs = _fresh(req, cls, hashes)
     members = set(req)
     log = []
@@ -1039,7 +1142,8 @@ def c18_history(prop, key, index, tier):
                 elif op == 'keep_only':
                     keep = set(rng.sample(mem, rng.randint(1, len(mem))))
                     desc = "keep_only(%s)" % sorted(keep)
-                    sched.keep_only([jobs[k] for k in keep])
+                    karg = [jobs[k] for k in keep]
+                    sched.keep_only(iter(karg) if step % 2 else karg)
                     exp_members = members & keep
                     exp_req = {a: req[a] & exp_members for a in exp_members}
                 else:
@@ -1301,16 +1405,19 @@ def c19_program(prop, key, index, tier):
                 j = pick('jn', False)
                 if not j:
                     continue
-                arg = nest()
+                args = [nest() for _ in range(rng.choice([1, 1, 2, 3]))]
                 rem = op == 'remove'
-                desc = "%s.requires(%s, remove=%s)" % (j, show(arg), rem)
+                desc = "%s.requires(%s, remove=%s)" % (j, ", ".join(show(a) for a in args), rem)
+                if len(args) > 1:
+                    out.count('requires() called with several positional arguments')
                 merr = rerr = None
                 try:
-                    m_requires(model[j], realize(arg, model), rem)
+                    for a in args:
+                        m_requires(model[j], realize(a, model), rem)
                 except KeyError:
                     merr = 'KeyError'
                 try:
-                    real[j].requires(realize(arg, real), remove=rem)
+                    real[j].requires(*[realize(a, real) for a in args], remove=rem)
                 except KeyError:
                     rerr = 'KeyError'
                 out.count('requires(remove=%s) statements' % rem)
@@ -1328,13 +1435,14 @@ def c19_program(prop, key, index, tier):
                 s = pick('s', False)
                 if not s:
                     continue
-                arg = nest()
-                desc = "%s.requires(%s)" % (s, show(arg))
+                args = [nest() for _ in range(rng.choice([1, 1, 2, 3]))]
+                desc = "%s.requires(%s)" % (s, ", ".join(show(a) for a in args))
                 if not model[s].jobs:
                     out.count('statements outside the domain (requirements on an empty sequence)')
                     continue
-                m_requires(model[s].jobs[0], realize(arg, model))
-                real[s].requires(realize(arg, real))
+                for a in args:
+                    m_requires(model[s].jobs[0], realize(a, model))
+                real[s].requires(*[realize(a, real) for a in args])
             elif op == 'seqasreq':
                 j = pick('jn', False)
                 s = pick('s', False)
